@@ -661,7 +661,8 @@ func worldRoutes(w *World) {
 		a.smu.Unlock()
 		env.probeHTTP(warmHost, "/", 8*time.Second) // takes the pooled work connection; its replacement will be late
 		pending := make(chan struct{})
-		go func() { defer close(pending); env.probeHTTP(handHost, "/pending", 10*time.Second) }()
+		pendingServedBy := ""
+		go func() { defer close(pending); pendingServedBy, _, _ = env.probeHTTP(handHost, "/pending", 10*time.Second) }()
 		time.Sleep(300 * time.Millisecond)
 		a.CloseProxy(hand.name)
 		syncCtl(a)
@@ -675,7 +676,13 @@ func worldRoutes(w *World) {
 		live = kept
 		nb := &route{name: fmt.Sprintf("r%d", nextName), kind: "http", host: handHost, owner: b}
 		nextName++
-		rr, got := b.register(M{"proxy_name": nb.name, "proxy_type": "http", "custom_domains": []string{nb.host}})
+		nf := M{"proxy_name": nb.name, "proxy_type": "http", "custom_domains": []string{nb.host}}
+		if r.Intn(2) == 0 {
+			// the new owner protects the route: the waiting request, admitted when the route was open, carries nothing
+			nb.authUser, nb.authPwd = "carol", "pw-"+randToken(r, 4)
+			nf["http_user"], nf["http_pwd"] = nb.authUser, nb.authPwd
+		}
+		rr, got := b.register(nf)
 		reset := func() {
 			<-pending
 			a.smu.Lock()
@@ -689,10 +696,20 @@ func worldRoutes(w *World) {
 		}
 		live = append(live, nb)
 		reset()
+		if nb.authUser != "" {
+			w.Check("C07.protected-backend-reached-only-with-credentials")
+			if pendingServedBy == nb.id() {
+				viol("C07", "auth", "protected-route-reached-without-credentials", "a request without credentials was waiting for a work connection of the unprotected owner of %s when the route went to %s, which protects it with %q:%q: the request was delivered to the new owner's backend; history: %v", nb.host, nb.id(), nb.authUser, nb.authPwd, history)
+			}
+		}
 		time.Sleep(2 * time.Second)
 		w.Check("C06.requests-after-handover-go-to-new-owner")
 		for j := 0; j < 3; j++ {
-			sb, st, err := env.probeHTTP(nb.host, "/after", 8*time.Second)
+			az := ""
+			if nb.authUser != "" {
+				az = basic(nb.authUser, nb.authPwd)
+			}
+			sb, st, err := env.probeHTTPAuth(nb.host, "/after", az, 8*time.Second)
 			if sb != nb.id() {
 				viol("C06", "route", "request-reached-former-owner-after-handover", "route %s went from %s to %s while a request was waiting for a work connection, which the former owner handed in late; request %d sent afterwards was served by %q (status %d, %v), want %s; history: %v",
 					nb.host, hand.id(), nb.id(), j+1, sb, st, err, nb.id(), history)
